@@ -130,17 +130,7 @@ def provenance(rep, K):
                 rep.violate('C04.provenance', mod, f, st, f'`{norm(st)}`: an output waveform may only receive TMIN at position 0, current_t at position z_cur, or the terminator '
                             f'(TMAX_OVL / max of the operand terminators)', node=st)
     rep.floor('provenance sites', n, 24)
-    # delay dataset selection rebinding: after the selection `delays` is a 3-d array
-    sel = [s for s in K.prologue if isinstance(s, ast.If) and cz(s.test) == 'len(delays)>1']
-    ok = len(sel) == 1
-    if ok:
-        rb = [s for s in ast.walk(sel[0]) if isinstance(s, ast.Assign) and is_name(s.targets[0], 'delays')]
-        ok = len(rb) == 4 and all(isinstance(s.value, ast.Subscript) and is_name(s.value.value, 'delays') and not isinstance(s.value.slice, ast.Tuple) for s in rb)
-        later = [s for s in walk_no_nested_funcs(K.f) if isinstance(s, ast.Assign) and is_name(s.targets[0], 'delays') and s not in rb]
-        ok = ok and not later
-    rep.ob('C04.provenance', 'delays is rebound once to the selected dataset and then only indexed [line, in_pol, out_pol]', ok)
-    if not ok:
-        rep.violate('C04.provenance', mod, f, sel[0].test if sel else 'len(delays) > 1', 'the dataset selection must rebind `delays = delays[<dataset>]` on each of its four arms exactly once', node=sel[0] if sel else f)
+    # (that `delays` is re-bound to exactly one dataset on every selection path is decided by evaluation: C06.dataset, part of depends())
 
 
 class TypeErr(Exception):
